@@ -1,24 +1,99 @@
+// Command check decides one property of /repo statically: bin/check Cnn --tier quick|thorough [--replay file].
 package main
 
 import (
+	"encoding/json"
 	"fmt"
 	"os"
-	"time"
+	"runtime/debug"
+	"sort"
+	"strconv"
 
-	"verif/internal/load"
+	"verif/internal/check"
+	"verif/internal/rules"
 )
 
 func main() {
-	t0 := time.Now()
-	p, err := load.Load(load.AMD64, "")
-	if err != nil {
-		fmt.Println("CHECK-ERROR", err)
+	if len(os.Args) < 2 {
+		ids := make([]string, 0)
+		for id := range rules.Registry {
+			ids = append(ids, id)
+		}
+		sort.Strings(ids)
+		fmt.Println("usage: check <property> [--tier quick|thorough] [--replay file]; properties:", ids)
 		os.Exit(2)
 	}
-	n := 0
-	for _, sp := range p.SSAPkgs {
-		_ = sp
-		n++
+	id := os.Args[1]
+	tier := os.Getenv("VERIF_TIER")
+	replay := ""
+	for i := 2; i < len(os.Args); i++ {
+		switch os.Args[i] {
+		case "--tier":
+			if i+1 < len(os.Args) {
+				tier = os.Args[i+1]
+				i++
+			}
+		case "--replay":
+			if i+1 < len(os.Args) {
+				replay = os.Args[i+1]
+				i++
+			}
+		}
 	}
-	fmt.Println(len(p.Pkgs), n, time.Since(t0))
+	if tier != "thorough" {
+		tier = "quick"
+	}
+	seed, _ := strconv.ParseInt(os.Getenv("VERIF_SEED"), 10, 64)
+	f, ok := rules.Registry[id]
+	if !ok {
+		fmt.Println("CHECK-ERROR unknown property", id)
+		os.Exit(2)
+	}
+	rep := check.New(id, rules.Levels[id], tier, seed)
+	code := func() (code int) {
+		defer func() {
+			if r := recover(); r != nil {
+				if ce, ok := r.(rules.CheckError); ok {
+					fmt.Println("CHECK-ERROR", ce.Msg)
+				} else {
+					fmt.Println("CHECK-ERROR checker panic:", r)
+					fmt.Println(string(debug.Stack()))
+				}
+				code = 2
+			}
+		}()
+		f(rules.NewCtx(rep, tier))
+		return -1
+	}()
+	if code == 2 {
+		os.Exit(2)
+	}
+	if replay != "" {
+		// re-evaluate and print the single obligation named by the replay file
+		b, err := os.ReadFile(replay)
+		if err != nil {
+			fmt.Println("CHECK-ERROR", err)
+			os.Exit(2)
+		}
+		var rf struct {
+			Obligation check.Obligation `json:"obligation"`
+		}
+		_ = json.Unmarshal(b, &rf)
+		found := false
+		for _, o := range rep.Obligations {
+			if o.Key == rf.Obligation.Key {
+				found = true
+				fmt.Printf("%s [%s] %s: %s\n", o.Key, o.Status, o.Pos, o.Detail)
+				if o.Status != check.Discharged {
+					fmt.Printf("VIOLATION property=%s replay=%s\n", id, replay)
+					os.Exit(1)
+				}
+			}
+		}
+		if !found {
+			fmt.Println("obligation", rf.Obligation.Key, "no longer exists on the current tree")
+		}
+		os.Exit(0)
+	}
+	os.Exit(rep.Finish())
 }
